@@ -17,6 +17,9 @@ var (
 	// ErrClosed is the error returned when methods are used after Close is called.
 	ErrClosed = errors.New("mkvs: tree is closed")
 
+	// ErrKeyTooLong is the error returned when a key that is longer than the maximum key length
+	// is inserted.
+	ErrKeyTooLong = errors.New("mkvs: key too long")
 	// ErrKnownRootMismatch is the error returned by CommitKnown when the known
 	// root mismatches.
 	ErrKnownRootMismatch = errors.New("mkvs: known root mismatch")
